@@ -135,7 +135,8 @@ func TestC02(t *testing.T) {
 			probes = append(probes, ev.Case{Kind: "stack", In: a, N: 10 << 20})
 		}
 	}
-	pairs := []string{"<a", "a ", "a/", "/a", "a=", "=a", "= ", " =", "='", "'=", "=\"", "=`", "a>", "><", "</", "/>", "<!", "!-", "--", "->", "<%", "%>", "%%", "<?", "?>", "]]", "]>", "&#", "#x", "x;", ";&", "a\x00", "\x00a", "\x00=", "/ ", " /", "//", "<<", ">>", "''", "\"\"", "``", "'>", "\">", "`>", " a", "a'", "a\"", "<\x00", "\x00<", "=>", "-!", "!>", "-\x00", "a=b ", "<a ", "<a/", "<a b=c ", "<!---", "x=`"}
+	pairs := []string{"<a", "a ", "a/", "/a", "a=", "=a", "= ", " =", "='", "'=", "=\"", "=`", "a>", "><", "</", "/>", "<!", "!-", "--", "->", "<%", "%>", "%%", "<?", "?>", "]]", "]>", "&#", "#x", "x;", ";&", "a\x00", "\x00a", "\x00=", "/ ", " /", "//", "<<", ">>", "''", "\"\"", "``", "'>", "\">", "`>", " a", "a'", "a\"", "<\x00", "\x00<", "=>", "-!", "!>", "-\x00", "a=b ", "<a ", "<a/", "<a b=c ", "<!---", "x=`",
+		"/\t", "/\r", "/\f", "/\v", "/\n", "\f/", "\v/", "a\f", "a\v", "=\f", "=\v", "\f=", "\v=", "'\f", "\"\v", "<a\f", "<a\v", "\fa", "\va", "a=b\f", "a=b\v", "a='b'\f", "/\f/", "\x00/", "/\x00\f"}
 	if thorough() {
 		pairs = nil
 		for _, a := range gen.AlphaHTML {
@@ -144,6 +145,11 @@ func TestC02(t *testing.T) {
 			}
 		}
 		pairs = append(pairs, "a=b ", "<a ", "<a/", "<a b=c ", "<!---", "x=`")
+		for _, ws := range []string{"\t", "\r", "\f", "\v"} {
+			for _, a := range gen.AlphaHTML {
+				pairs = append(pairs, a+ws, ws+a)
+			}
+		}
 	}
 	for _, u := range pairs {
 		probes = append(probes, ev.Case{Kind: "stack", In: u, N: 1 << 20})
